@@ -1,0 +1,31 @@
+//! Verification hooks (cargo feature `verif`, off by default).
+//!
+//! A single process-global event sink. Instrumented sites call [`emit`]; a
+//! verification harness installs a closure with [`set_sink`] that records the
+//! event and may block the calling thread (schedule control). With no sink
+//! installed `emit` is a read-lock and a branch.
+use std::sync::{Arc, RwLock};
+
+pub type Sink = Arc<dyn Fn(&'static str, [u64; 4]) + Send + Sync>;
+
+/// Marker for "no value" in an event argument.
+pub const NONE: u64 = u64::MAX;
+
+static SINK: RwLock<Option<Sink>> = RwLock::new(None);
+
+pub fn set_sink(sink: Sink) {
+    *SINK.write().unwrap_or_else(|e| e.into_inner()) = Some(sink);
+}
+
+pub fn clear_sink() {
+    *SINK.write().unwrap_or_else(|e| e.into_inner()) = None;
+}
+
+#[inline]
+pub fn emit(site: &'static str, args: [u64; 4]) {
+    // clone the Arc and drop the lock before calling: the sink may block
+    let sink = { SINK.read().unwrap_or_else(|e| e.into_inner()).clone() };
+    if let Some(sink) = sink {
+        sink(site, args);
+    }
+}
